@@ -315,3 +315,42 @@ def boundary_descs(seed, n):
         out.append({'family': 'F3c', 'name': f'F3c:{k}:{side}:p{p}:n{nh}', 'rows': rows, 'indomain': True,
                     'prms': {'BASE_LVL_HEIGHT_PERC': p, 'MAX_HITS_OKTA0': 0, 'MAX_HOLES_OKTA8': 0}})
     return out
+
+
+# ------------------------------------------------------------------------------------------------
+# F3d: ties in the time order inside a group that splits (several ceilometers on a common time grid)
+# ------------------------------------------------------------------------------------------------
+def tiesplit_desc(lay, idx, seed):
+    rng = random.Random(f'F3d:{seed}:{idx}')
+    nce, nt = lay['nce'], rng.randint(10, 16)
+    rows = []
+    for c in range(nce):
+        name = f'c{c}'
+        for t in range(nt):
+            dt = -DT * (nt - 1 - t)
+            r = rng.random()
+            if r < 0.08:
+                rows.append([name, dt, None, 0])
+                continue
+            h1 = 1000 + rng.randint(-40, 40)
+            h2 = 1000 + lay['gap'] + rng.randint(-40, 40)
+            rows.append([name, dt, h1, 1])
+            if h2 > h1:
+                rows.append([name, dt, h2, 2])
+            if c == 0 and t % 4 == 0:
+                rows.append([name, dt, 6000 + rng.randint(0, 30), 3])       # a second, far group
+    rng.shuffle(rows)
+    prms = {'BASE_LVL_LOOKBACK_PERC': lay['lb'], 'BASE_LVL_HEIGHT_PERC': lay['p']}
+    return {'family': 'F3d', 'name': f'F3d:{idx}:n{nce}:g{lay["gap"]}:lb{lay["lb"]}:p{lay["p"]}', 'rows': rows, 'prms': prms,
+            'indomain': True, 'abstract': lay}
+
+
+def tiesplit_descs(tier, seed, limit):
+    lays = export('tiesplit_layouts', tier)['tiesplit_layouts']
+    lays = sorted(lays, key=lambda l: (l['nce'], l['gap'], l['lb'], l['p']))
+    out = []
+    i = 0
+    while len(out) < (limit or 4 * len(lays)):
+        out.append(tiesplit_desc(lays[i % len(lays)], i, seed))
+        i += 1
+    return out, len(lays)
